@@ -27,6 +27,7 @@
 #include <string.h>
 #include <strings.h>
 #include "stubs/libc.h"
+#include "stubs/http.h"
 #include "proto/http.h"
 
 #ifndef VF_REPLAY
@@ -56,7 +57,7 @@ __CPROVER_ensures(buf_ret != NULL ==> VF_PTR_INSIDE(*buf_ret, buf, buf_size))
 __CPROVER_ensures(buf_size_ret != NULL ==> *buf_size_ret <= buf_size)
 /* pointer and length describe the same suffix */
 __CPROVER_ensures((buf_ret != NULL && buf_size_ret != NULL) ==>
-    (size_t)(*buf_ret - buf) + *buf_size_ret == buf_size)
+    (VF_OFF(*buf_ret) - VF_OFF(buf)) + *buf_size_ret == buf_size)
 ;
 
 /* ----------------------------------------------------------------- skip_spwsp2 ---- */
@@ -78,7 +79,7 @@ __CPROVER_ensures(__CPROVER_return_value == 0)
 __CPROVER_ensures(buf_ret != NULL ==> VF_PTR_INSIDE(*buf_ret, buf, buf_size))
 __CPROVER_ensures(buf_size_ret != NULL ==> *buf_size_ret <= buf_size)
 __CPROVER_ensures((buf_ret != NULL && buf_size_ret != NULL) ==>
-    (size_t)(*buf_ret - buf) + *buf_size_ret <= buf_size)
+    (VF_OFF(*buf_ret) - VF_OFF(buf)) + *buf_size_ret <= buf_size)
 ;
 
 /* ---------------------------------------------------------------- wsp2sp / ht2sp ---- */
@@ -299,10 +300,10 @@ __CPROVER_ensures((__CPROVER_return_value == 0 && val_ret != NULL) ==>
 __CPROVER_ensures((__CPROVER_return_value == 0 && val_ret != NULL && val_ret_size != NULL) ==>
     VF_INSIDE(*val_ret, *val_ret_size, query, query_size))
 __CPROVER_ensures((__CPROVER_return_value == 0 && val_ret != NULL && val_ret_size != NULL) ==>
-    (size_t)(*val_ret - query) + *val_ret_size <= query_size)
+    (VF_OFF(*val_ret) - VF_OFF(query)) + *val_ret_size <= query_size)
 /* name '=' value: the name starts strictly before the value */
 __CPROVER_ensures((__CPROVER_return_value == 0 && val_name_ret != NULL && val_ret != NULL) ==>
-    (size_t)(*val_name_ret - query) < (size_t)(*val_ret - query))
+    VF_OFF(*val_name_ret) < VF_OFF(*val_ret))
 ;
 
 int http_query_val_get(const uint8_t *query, size_t query_size,
